@@ -80,7 +80,18 @@ namespace xsimd
         template <class A, class T>
         XSIMD_INLINE batch<T, A> abs(batch<std::complex<T>, A> const& z, requires_arch<generic>) noexcept
         {
-            return hypot(z.real(), z.imag());
+            // hypot squares its operands: bring very large / very small components into the middle of the
+            // exponent range first, so that |z| is neither inf nor 0 when it is representable
+            using batch_type = batch<T, A>;
+            constexpr T big = std::is_same<T, float>::value ? T(1.125899906842624e15) /* 2^50 */ : T(3.273390607896142e150) /* 2^500 */;
+            constexpr T down = std::is_same<T, float>::value ? T(8.470329472543003e-22) /* 2^-70 */ : T(2.409919865102884e-181) /* 2^-600 */;
+            constexpr T up = std::is_same<T, float>::value ? T(1.2676506002282294e30) /* 2^100 */ : T(4.149515568880993e180) /* 2^600 */;
+            batch_type m = max(abs(z.real()), abs(z.imag()));
+            auto is_big = m >= batch_type(big);
+            auto is_small = m < batch_type(T(1) / big);
+            batch_type scale = select(is_big, batch_type(down), select(is_small, batch_type(up), batch_type(T(1))));
+            batch_type unscale = select(is_big, batch_type(T(1) / down), select(is_small, batch_type(T(1) / up), batch_type(T(1))));
+            return hypot(z.real() * scale, z.imag() * scale) * unscale;
         }
 
         // avg
